@@ -21,3 +21,4 @@ def run(ctx):
     immut.im4(ctx)
     immut.im5(ctx)
     immut.im8(ctx)
+    immut.im9(ctx)
